@@ -26,20 +26,41 @@ pub fn c13_hook(r: &mut Rng, n: usize) {
             }
             boxes.push((a, b));
         }
-        let free = |q: &[f64]| !boxes.iter().any(|b| inside(b, q));
+        let is_free = |bx: &Vec<([f64; 6], [f64; 6])>, q: &[f64]| !bx.iter().any(|b| inside(b, q));
         let mut start = rand_joints(r, 2.0); let mut goal = rand_joints(r, 2.0);
         let mut t = 0;
-        while (!free(&start) || !free(&goal)) && t < 100 { start = rand_joints(r, 2.0); goal = rand_joints(r, 2.0); t += 1; }
+        while (!is_free(&boxes, &start) || !is_free(&boxes, &goal)) && t < 100 { start = rand_joints(r, 2.0); goal = rand_joints(r, 2.0); t += 1; }
         if t >= 100 { continue; }
-        if r.chance(0.1) { for k in 0..6 { goal[k] = start[k] + r.range(-0.01, 0.01); } if !free(&goal) { continue; } }
+        if r.chance(0.1) { for k in 0..6 { goal[k] = start[k] + r.range(-0.01, 0.01); } if !is_free(&boxes, &goal) { continue; } }
         let ext = *r.pick(&[0.05, 0.1, 0.3, 3f64.to_radians()]);
-        let max_try = *r.pick(&[1usize, 3, 20, 200, 200]);
-        let samples: Vec<Vec<f64>> = (0..max_try).map(|_| (0..dim).map(|_| r.range(lo, hi)).collect()).collect();
+        let mut max_try = *r.pick(&[1usize, 3, 20, 200, 200]);
+        let mut samples: Vec<Vec<f64>> = (0..max_try).map(|_| (0..dim).map(|_| r.range(lo, hi)).collect()).collect();
+        // directed (coordinates in units of the step, in two of the six dimensions, relative to the start): the first sample
+        // s = (0.5, 0) lies less than one step from the start inside a small obstacle; the goal (4, 0) cannot connect to it
+        // in a straight line (an obstacle around (2, 0)); the second sample is a dead end for the goal tree; the third,
+        // s2 = (0.5, 0.9), is nearer to s than to the start.  A sample that is its own extension target is a node like any
+        // other and has to be free: if s got into the tree, s2 hangs below it and s ends up inside the returned path
+        let mut directed = false;
+        if r.chance(0.2) {
+            let k0 = r.below(6); let k1 = (k0 + 1 + r.below(5)) % 6;
+            for k in 0..6 { start[k] = r.range(-1.5, 1.5); }   // keep the whole construction inside the sampling box
+            let (sx, sy) = (if r.chance(0.5) { 1.0 } else { -1.0 }, if r.chance(0.5) { 1.0 } else { -1.0 });
+            let at = |x: f64, y: f64| { let mut v = start.to_vec(); v[k0] += sx * x * ext; v[k1] += sy * y * ext; v };
+            let around = |c: &Vec<f64>, h: f64| { let mut a = [0.0; 6]; let mut b = [0.0; 6]; for k in 0..6 { a[k] = c[k] - h * ext; b[k] = c[k] + h * ext; } (a, b) };
+            let s0 = at(0.5, 0.0);
+            boxes = vec![around(&s0, 0.1), around(&at(2.0, 0.0), 0.2)];
+            let g = at(4.0, 0.0);
+            for k in 0..6 { goal[k] = g[k]; }
+            if max_try < 20 { max_try = 20; while samples.len() < max_try { samples.push((0..dim).map(|_| r.range(lo, hi)).collect()); } }
+            samples[0] = s0; samples[1] = at(2.0, 0.0); samples[2] = at(0.5, 0.9);
+            directed = true;
+        }
+        let free = |q: &[f64]| !boxes.iter().any(|b| inside(b, q));
         let stop_after = if r.chance(0.25) { r.below(max_try.min(6) + 1) } else { usize::MAX };
         let stop = AtomicBool::new(stop_after == 0);
         let calls = Cell::new(0usize);
         let sampler = || { let i = calls.get(); calls.set(i + 1); if i + 1 >= stop_after { stop.store(true, Ordering::Relaxed); } samples[i.min(samples.len() - 1)].clone() };
-        let mut l = Line::new("C13", &format!("hook/boxes{}/ext{:.2}/try{}{}", nb, ext, max_try, if stop_after != usize::MAX { "/cancel" } else { "" }), "h_rrt");
+        let mut l = Line::new("C13", &format!("hook/boxes{}/ext{:.2}/try{}{}{}", nb, ext, max_try, if stop_after != usize::MAX { "/cancel" } else { "" }, if directed { "/near-sample-in-obstacle" } else { "" }), "h_rrt");
         l.j6(&start).j6(&goal).f(ext).n(max_try).n(if stop_after == usize::MAX { 1_000_000 } else { stop_after });
         l.n(boxes.len()); for b in &boxes { l.j6(&b.0).j6(&b.1); }
         l.n(samples.len()); for s in &samples { for x in s { l.f(*x); } }
